@@ -69,7 +69,11 @@ def crosscheck(chk, disp, cases, name):
             real_kind = "return"
         except Exception as e:  # the real kernel raised
             real, real_kind = type(e).__name__, "raise"
-        kind, val, arrays = interpret(disp, a2)
+        try:
+            kind, val, arrays = interpret(disp, a2)
+        except Unsupported as e:
+            chk.notes.append("encoder cross-check skipped for %s: unsupported construct (%s)" % (name, e))
+            return True
         chk.crosscheck["cases"] += 1
         ok = kind == real_kind
         if ok and kind == "return":
